@@ -314,3 +314,53 @@ def r6(ctx):
 
 
 RULES = [("C03.R1", r1), ("C03.R2", r2), ("C03.R3", r3), ("C03.R4", r4), ("C03.R5", r5), ("C03.R6", r6)]
+
+
+def generic_eqhash(ctx, rule: str):
+    """Package-wide form of EQHASH (thorough tier): for every class defining both __eq__ and __hash__, the attributes
+    __hash__ derives from (directly, through attributes computed in __init__, or through repr(self)) are a subset of
+    what the same-type branch of __eq__ compares (same resolution)."""
+    P = ctx.project
+    n = 0
+    for C in sorted(P.classes.values(), key=lambda c: c.qualname):
+        eq, hs = C.methods.get("__eq__"), C.methods.get("__hash__")
+        if eq is None or hs is None:
+            continue
+        n += 1
+        ctx.look()
+        short = C.qualname.split(".")[-1]
+        init = C.methods.get("__init__")
+        derived = {}
+        if init is not None:
+            for st in walk_no_nested(init.node):
+                if isinstance(st, ast.Assign) and len(st.targets) == 1 and isinstance(st.targets[0], ast.Attribute) and dotted(st.targets[0].value) == "self":
+                    src = {a.attr for a in ast.walk(st.value) if isinstance(a, ast.Attribute) and dotted(a.value) == "self"}
+                    if src:
+                        derived[st.targets[0].attr] = src
+
+        def base_attrs(attrs):
+            out, todo = set(), list(attrs)
+            while todo:
+                a = todo.pop()
+                if a in derived and a not in out:
+                    todo.extend(derived[a])
+                    out.add(a)
+                else:
+                    out.add(a)
+            return {a for a in out if a not in derived} | {a for a in out if a in derived and not derived[a]}
+
+        eq_attrs = set()
+        for b in ast.walk(eq.node):
+            if isinstance(b, ast.If) and norm(b.test) == f"isinstance(other, {short})":
+                for r in [x for x in ast.walk(b) if isinstance(x, ast.Return)]:
+                    eq_attrs |= {a.attr for a in ast.walk(r) if isinstance(a, ast.Attribute) and dotted(a.value) in ("self", "other")}
+        h_attrs = {a.attr for a in ast.walk(hs.node) if isinstance(a, ast.Attribute) and dotted(a.value) == "self"}
+        if any(isinstance(c, ast.Call) and dotted(c.func) == "repr" and c.args and norm(c.args[0]) == "self" for c in ast.walk(hs.node)) and "__repr__" in C.methods:
+            h_attrs |= {a.attr for a in ast.walk(C.methods["__repr__"].node) if isinstance(a, ast.Attribute) and dotted(a.value) == "self"}
+        he, ee = base_attrs(h_attrs), base_attrs(eq_attrs)
+        ctx.check(bool(he) and he <= ee, rule, f"{short}: __hash__ derives only from what __eq__ compares", hs.where, ctx.construct(C.qualname, text="generic eq/hash"),
+                  f"hash reads {sorted(he)}, equality compares {sorted(ee)}: equal objects may hash differently")
+    ctx.floor(rule, n, 6, "classes defining both __eq__ and __hash__")
+
+
+THOROUGH = [("C03.T1", lambda ctx: generic_eqhash(ctx, "C03.T1"))]
